@@ -96,7 +96,7 @@ func (m *RuleManager) Initialize(maxReplica int, locationLabels []string) error 
 }
 
 func (m *RuleManager) loadRules() error {
-	var toSave []*Rule
+	toSave := make(map[[2]string]*Rule)
 	var toDelete []string
 	err := m.storage.LoadRules(func(k, v string) {
 		var r Rule
@@ -112,13 +112,18 @@ func (m *RuleManager) loadRules() error {
 		}
 		if _, ok := m.ruleConfig.rules[r.Key()]; ok {
 			log.Error("duplicated rule key", zap.String("rule-key", k), zap.String("rule-value", v), errs.ZapError(errs.ErrLoadRule))
-			toDelete = append(toDelete, k)
-			return
-		}
-		if k != r.StoreKey() {
+			if k != r.StoreKey() {
+				toDelete = append(toDelete, k)
+				return
+			}
+			// The other record of this rule sits under a mismatching key and is
+			// already queued for deletion: the record under the right key wins and
+			// must neither be overwritten nor deleted.
+			delete(toSave, r.Key())
+		} else if k != r.StoreKey() {
 			log.Error("mismatch data key, need to restore", zap.String("rule-key", k), zap.String("rule-value", v), errs.ZapError(errs.ErrLoadRule))
 			toDelete = append(toDelete, k)
-			toSave = append(toSave, &r)
+			toSave[r.Key()] = &r
 		}
 		m.ruleConfig.rules[r.Key()] = &r
 	})
